@@ -258,8 +258,14 @@ fn stmt(st: &mut St, t: &[&str]) -> String {
         }
         // ---- observations
         "dump" => term(st, &mut c).verif_dump(),
-        "subterms" => ids_show(sub_terms(term(st, &mut c))),
-        "leaves" => ids_show(leaves(term(st, &mut c))),
+        "subterms" => {
+            let a = term(st, &mut c);
+            format!("{} @ {}", ids_show(sub_terms(a)), a.verif_dump())
+        }
+        "leaves" => {
+            let a = term(st, &mut c);
+            format!("{} @ {}", ids_show(leaves(a)), a.verif_dump())
+        }
         "reinfo" => {
             let a = term(st, &mut c);
             reinfo(a, &mut c)
@@ -550,8 +556,14 @@ fn wstmt(v: &mut Vec<RegLan>, t: &[&str]) -> String {
             push(v, w::re_loop(a, i, j))
         }
         "dump" => v[c.us()].verif_dump(),
-        "subterms" => ids_show(sub_terms(v[c.us()])),
-        "leaves" => ids_show(leaves(v[c.us()])),
+        "subterms" => {
+            let a = v[c.us()];
+            format!("{} @ {}", ids_show(sub_terms(a)), a.verif_dump())
+        }
+        "leaves" => {
+            let a = v[c.us()];
+            format!("{} @ {}", ids_show(leaves(a)), a.verif_dump())
+        }
         "reinfo" => {
             let a = v[c.us()];
             reinfo(a, &mut c)
